@@ -197,6 +197,10 @@ func (env *Env) tr(e *E) Val {
 				return Val{S: env.heap(gv.Name), Sort: gv.Type}
 			}
 		}
+		if srt, ok := m.comps[e.S]; ok && !env.inDef {
+			// a heap component by its internal name (used for frame clauses over whole maps)
+			return Val{S: env.heap(e.S), Sort: srt}
+		}
 		sfail("unknown identifier %s", e.S)
 	case "int":
 		return Val{S: intLit(e.N), Sort: "Int", G: types.Typ[types.Int]}
@@ -830,6 +834,21 @@ func (env *Env) trCall(e *E) Val {
 		n.st = env.old
 		init := n.heap(c)
 		return Val{S: fmt.Sprintf("(forall ((fr Int)) (! (=> (not (= fr %s)) (= (select %s fr) (select %s fr))) :pattern ((select %s fr))))", slRef(x.S), cur, init, cur), Sort: "Bool"}
+	case "mapvals", "mapkeys": // the value / presence array of a Go map in the current state (string keys by content id)
+		x := arg(0)
+		mp, ok := x.G.Underlying().(*types.Map)
+		if !ok {
+			sfail("%s of non-map", e.S)
+		}
+		ks, vs := m.sortOf(mp.Key()), m.sortOf(mp.Elem())
+		if ks == "Str" {
+			ks = "Int"
+		}
+		md, mv := m.compMap(ks, vs)
+		if e.S == "mapkeys" {
+			return Val{S: sel(env.heap(md), x.S), Sort: "(Array " + ks + " Bool)"}
+		}
+		return Val{S: sel(env.heap(mv), x.S), Sort: "(Array " + ks + " " + vs + ")", G: x.G}
 	case "mapdom": // mapdom(m, k): key present
 		x, k := arg(0), arg(1)
 		if mp, ok := x.G.Underlying().(*types.Map); ok {
